@@ -144,6 +144,49 @@ fn is_repo_path(path: &str) -> bool {
     path.starts_with("/repo/crates/") || path.starts_with("crates/")
 }
 
+/// Name of the function enclosing `line` in a repo source file (nearest preceding `fn name`).
+/// Signatures use it instead of the line number so that unrelated edits to the file do not
+/// turn a recorded finding into a "new" one.
+pub fn enclosing_fn(rel_file: &str, line: u32) -> String {
+    let path = if rel_file.starts_with('/') {
+        PathBuf::from(rel_file)
+    } else {
+        util::repo_root().join(rel_file)
+    };
+    let Ok(text) = std::fs::read_to_string(&path) else {
+        return format!("line{}", line);
+    };
+    let lines: Vec<&str> = text.lines().collect();
+    let mut i = (line as usize).min(lines.len());
+    while i > 0 {
+        i -= 1;
+        let l = lines[i].trim_start();
+        let l = l.strip_prefix("pub(crate) ").or_else(|| l.strip_prefix("pub ")).unwrap_or(l);
+        if let Some(rest) = l.strip_prefix("fn ") {
+            let name: String = rest.chars().take_while(|c| c.is_alphanumeric() || *c == '_').collect();
+            if !name.is_empty() {
+                return name;
+            }
+        }
+    }
+    format!("line{}", line)
+}
+
+/// Stable panic signature: file, enclosing function, first words of the message.
+pub fn panic_signature(p: &PanicInfo) -> String {
+    let mut it = p.site.rsplitn(2, ':');
+    let line: u32 = it.next().and_then(|l| l.parse().ok()).unwrap_or(0);
+    let file = it.next().unwrap_or(&p.site).to_string();
+    let f = enclosing_fn(&file, line);
+    let words: Vec<String> = message_class(&p.message)
+        .split(|c: char| !c.is_alphanumeric() && c != '#')
+        .filter(|w| !w.is_empty())
+        .take(3)
+        .map(|w| w.to_string())
+        .collect();
+    format!("panic@{}::{}|{}", file, f, words.join(" "))
+}
+
 pub fn install_panic_hook() {
     std::panic::set_hook(Box::new(|info| {
         let message = if let Some(s) = info.payload().downcast_ref::<&str>() {
@@ -185,6 +228,35 @@ pub fn install_panic_hook() {
             site,
         });
     }));
+}
+
+/// Run `f` under catch_unwind; on panic return the hook's record.
+pub fn guard<T>(f: impl FnOnce() -> T) -> Result<T, PanicInfo> {
+    let _ = take_last_panic();
+    match catch_unwind(AssertUnwindSafe(f)) {
+        Ok(v) => Ok(v),
+        Err(_) => Err(take_last_panic().unwrap_or(PanicInfo {
+            message: "?".into(),
+            location: "?".into(),
+            site: "?".into(),
+        })),
+    }
+}
+
+static CURRENT_INPUT: Mutex<Option<std::fs::File>> = Mutex::new(None);
+
+/// Record the input about to be processed so that the parent can attach it to
+/// a crash (abort / stack overflow / CPU budget) of this worker.
+pub fn note_input(s: &str) {
+    use std::os::unix::fs::FileExt;
+    if let Ok(g) = CURRENT_INPUT.lock() {
+        if let Some(f) = g.as_ref() {
+            let bytes = s.as_bytes();
+            let n = bytes.len().min(1 << 20);
+            let _ = f.set_len(0);
+            let _ = f.write_all_at(&bytes[..n], 0);
+        }
+    }
 }
 
 pub fn take_last_panic() -> Option<PanicInfo> {
@@ -272,7 +344,7 @@ impl Ctx {
             let harness_fault = p.site.contains("verif/harness") || p.site.starts_with("src/");
             *self.stats.entry("panics".into()).or_insert(0) += 1;
             let rec = json!({"t":"panic","case":id,"message":util::truncate(&p.message,600),
-                "location":p.location,"site":p.site,"harness_fault":harness_fault,
+                "location":p.location,"site":p.site,"sig":panic_signature(&p),"harness_fault":harness_fault,
                 "input": case.input.clone().unwrap_or(Value::Null)});
             let _ = writeln!(self.records, "{}", rec);
         }
@@ -325,6 +397,76 @@ impl Ctx {
     }
 }
 
+static WORK_THREAD: AtomicU64 = AtomicU64::new(0);
+
+/// Sample the work thread's stack from outside with gdb (robust even when the thread is stuck inside
+/// the allocator) and return the blamed compiler pass.
+fn sample_blamed_module() -> String {
+    let pid = std::process::id();
+    let out = std::process::Command::new("timeout")
+        .arg("40")
+        .arg("gdb")
+        .arg("-p")
+        .arg(pid.to_string())
+        .arg("-batch")
+        .arg("-ex")
+        .arg("thread apply all bt -80")
+        .stdin(std::process::Stdio::null())
+        .stderr(std::process::Stdio::null())
+        .output();
+    let Ok(out) = out else { return "?".into() };
+    let text = String::from_utf8_lossy(&out.stdout).to_string();
+    // split per thread; choose the one running compiler code
+    let mut best = "?".to_string();
+    for section in text.split("\nThread ") {
+        if !section.contains("compiler::") && !section.contains("parser::") && !section.contains("lexer::") {
+            continue;
+        }
+        // frames are innermost first: "#N  0x... in path::to::fn (..) at file:line"
+        let mut mods: Vec<String> = Vec::new();
+        for l in section.lines() {
+            let l = l.trim_start();
+            if !l.starts_with('#') {
+                continue;
+            }
+            let Some(pos) = l.find(" in ") else { continue };
+            let f = &l[pos + 4..];
+            let f = f.split(|c: char| c == ' ' || c == '(').next().unwrap_or("");
+            let f = f.trim_start_matches('<');
+            let first = f.split("::").next().unwrap_or("");
+            if !matches!(first, "compiler" | "parser" | "lexer" | "ast" | "cst" | "diagnostics") {
+                continue;
+            }
+            let mut parts: Vec<&str> = f.split("::").collect();
+            if parts.len() > 2 {
+                parts.truncate(2);
+            }
+            mods.push(parts.join("::"));
+        }
+        for m in mods.iter().rev() {
+            if m.starts_with("compiler::pipeline") || m.starts_with("compiler::main") || m.starts_with("compiler::query") {
+                continue;
+            }
+            best = m.clone();
+            break;
+        }
+        if best == "?" {
+            if let Some(m) = mods.last() {
+                best = m.clone();
+            }
+        }
+    }
+    best
+}
+
+fn rss_bytes() -> u64 {
+    std::fs::read_to_string("/proc/self/statm")
+        .ok()
+        .and_then(|s| s.split_whitespace().nth(1).and_then(|x| x.parse::<u64>().ok()))
+        .map(|pages| pages * 4096)
+        .unwrap_or(0)
+}
+
 fn set_rlimit_as(bytes: u64) {
     let lim = libc::rlimit {
         rlim_cur: bytes,
@@ -368,6 +510,14 @@ pub fn worker_main(spec: &'static PropSpec, args: WorkerArgs) -> i32 {
         .truncate(false)
         .open(dir.join(format!("shard{}.progress", args.shard)))
         .expect("open progress");
+    if let Ok(f) = std::fs::OpenOptions::new()
+        .create(true)
+        .write(true)
+        .truncate(true)
+        .open(dir.join(format!("shard{}.current", args.shard)))
+    {
+        *CURRENT_INPUT.lock().unwrap() = Some(f);
+    }
     let prior: Option<Value> = std::fs::read_to_string(dir.join(format!("shard{}.sum.json", args.shard)))
         .ok()
         .and_then(|s| serde_json::from_str(&s).ok());
@@ -412,16 +562,24 @@ pub fn worker_main(spec: &'static PropSpec, args: WorkerArgs) -> i32 {
             }
         }
     }
-    // watchdog
+    // watchdog: per-case CPU budget and resident-set cap; on breach ask the work
+    // thread for a backtrace (SIGUSR1), then exit 97 (CPU) / 96 (memory).
+    let _ = std::fs::remove_file(dir.join(format!("shard{}.hang", args.shard)));
     let budget_ns = spec.case_cpu_s * 1_000_000_000;
+    let rss_cap = util::env_u64("VERIF_RSS_GIB", 3) << 30;
+    let hang_path = dir.join(format!("shard{}.hang", args.shard));
     std::thread::spawn(move || {
         loop {
-            std::thread::sleep(Duration::from_millis(250));
+            std::thread::sleep(Duration::from_millis(200));
             if CASE_ACTIVE.load(Ordering::SeqCst) != 0 {
                 let start = CASE_START_CPU_NS.load(Ordering::SeqCst);
                 let now = process_cpu_ns();
-                if now.saturating_sub(start) > budget_ns {
-                    unsafe { libc::_exit(97) };
+                let over_cpu = now.saturating_sub(start) > budget_ns;
+                let over_mem = rss_bytes() > rss_cap;
+                if over_cpu || over_mem {
+                    let m = sample_blamed_module();
+                    let _ = std::fs::write(&hang_path, m);
+                    unsafe { libc::_exit(if over_cpu { 97 } else { 96 }) };
                 }
             }
         }
@@ -432,6 +590,7 @@ pub fn worker_main(spec: &'static PropSpec, args: WorkerArgs) -> i32 {
         .name("work".into())
         .stack_size(stack)
         .spawn(move || {
+            WORK_THREAD.store(unsafe { libc::pthread_self() } as u64, Ordering::SeqCst);
             run(&mut ctx);
             ctx.checkpoint();
         })
@@ -569,12 +728,18 @@ pub fn run_property(spec: &'static PropSpec, tier: Tier, seed: u64, replay: Opti
                 let case_id = parts.next().unwrap_or("?").trim().to_string();
                 let how = if let Some(sig) = st.signal() {
                     format!("signal:{}", signal_name(sig))
-                } else if st.code() == Some(97) {
-                    "cpu-budget-exceeded".to_string()
+                } else if st.code() == Some(97) || st.code() == Some(96) {
+                    let m = std::fs::read_to_string(dir.join(format!("shard{}.hang", i))).unwrap_or_else(|_| "?".into());
+                    let _ = std::fs::remove_file(dir.join(format!("shard{}.hang", i)));
+                    format!("{}@{}", if st.code() == Some(97) { "hang" } else { "memory-blowup" }, m.trim())
                 } else {
                     format!("exit:{}", st.code().unwrap_or(-1))
                 };
-                crash_records.push(json!({"t":"crash","case":case_id,"how":how,"shard":i,"idx":idx}));
+                let cur = std::fs::read(dir.join(format!("shard{}.current", i)))
+                    .map(|b| String::from_utf8_lossy(&b).to_string())
+                    .unwrap_or_default();
+                crash_records.push(json!({"t":"crash","case":case_id,"how":how,"shard":i,"idx":idx,
+                    "detail": {"input": cur}}));
                 sh.restarts += 1;
                 if sh.restarts > 40 || idx == 0 {
                     run_inconclusive.push(format!(
@@ -672,7 +837,7 @@ pub fn run_property(spec: &'static PropSpec, tier: Tier, seed: u64, replay: Opti
                 let site = r["site"].as_str().unwrap_or("?");
                 let msg = r["message"].as_str().unwrap_or("");
                 if spec.crash_is_violation {
-                    let sig = format!("panic@{}", site);
+                    let sig = r["sig"].as_str().map(|s| s.to_string()).unwrap_or_else(|| format!("panic@{}", site));
                     let e = violations.entry(sig).or_insert((
                         format!("compiler panicked at {}: {}", site, util::truncate(msg, 120)),
                         r.clone(),
@@ -693,7 +858,12 @@ pub fn run_property(spec: &'static PropSpec, tier: Tier, seed: u64, replay: Opti
                         .or_insert(0) += 1;
                     merged.inconclusive.push(format!("worker died ({}), not attributable", how));
                 } else if spec.crash_is_violation {
-                    let sig = format!("crash:{}", how);
+                    let sig = if how.starts_with("hang@") || how.starts_with("memory-blowup@") {
+                        // CPU and memory exhaustion in the same module are one resource blow-up
+                        format!("resource-blowup@{}", how.splitn(2, '@').nth(1).unwrap_or("?"))
+                    } else {
+                        format!("crash:{}", how)
+                    };
                     let e = violations.entry(sig).or_insert((
                         format!("worker {} while running case {}", how, r["case"].as_str().unwrap_or("?")),
                         r.clone(),
